@@ -97,4 +97,7 @@ theorem positiveLoop_no_date (items : List Tok) (value : Str) (up : Bool) (n : N
 theorem Out.map_ne_panic (f : Str → Str) (o : Out) (h : o ≠ .panic) : o.map f ≠ .panic := by
   cases o <;> simp_all [Out.map]
 
+theorem Out.finish_ne_panic (v : Str) (f : Str → Str) (o : Out) (h : o ≠ .panic) : o.finish v f ≠ .panic := by
+  cases o <;> simp_all [Out.finish]
+
 end XlModel.NumFmt
